@@ -386,7 +386,9 @@ impl CrashCheck {
                 {
                     let cseed = seed ^ (pos as u64).wrapping_mul(0x9E37) ^ h;
                     let ops = continuation_ops(cseed, &model, avoid);
-                    let start = FsImage::read_from(&sb.dir);
+                    // continue from the crash image itself, so that recovery and the following
+                    // commits happen in one session (as they do in a real restart)
+                    let start = img.clone();
                     drop(sb);
                     match record(&ops, cseed, Some((&start, &model)), self.id) {
                         Ok(Ok(rec2)) => {
